@@ -321,6 +321,38 @@ def run(repo, rep, tier):
         return func.file == LS and isinstance(v, ast.Subscript) and \
             isinstance(v.slice, ast.Constant) and v.slice.value == 1
 
+    def checked_by_helpers(func, sub):
+        """facts established by check helpers called (as top-level
+        statements) before the statement that contains `sub`: the
+        conditions the helper ensures on normal return, with its parameters
+        replaced by the arguments - valid while the argument locals are
+        bound only once in the function"""
+        from ..paths import ensures, _helper_of, _bind_args, _Subst
+        import copy as _copy
+        out = []
+        stores = {}
+        for x in ast.walk(func.node):
+            if isinstance(x, ast.Name) and isinstance(x.ctx, ast.Store):
+                stores[x.id] = stores.get(x.id, 0) + 1
+        for st in func.body:
+            if any(x is sub for x in ast.walk(st)):
+                break
+            if not (isinstance(st, ast.Expr) and
+                    isinstance(st.value, ast.Call)):
+                continue
+            hfun = _helper_of(func, st.value)
+            if hfun is None:
+                continue
+            args = _bind_args(hfun, st.value)
+            if args is None or any(
+                    isinstance(x, ast.Name) and stores.get(x.id, 0) > 1
+                    for a in args.values() for x in ast.walk(a)):
+                continue
+            for e, pol in ensures(hfun):
+                out.append((_Subst(args, '', set()).visit(
+                    _copy.deepcopy(e)), pol))
+        return out
+
     class EA(EscapeAnalysis):
         def _key_guarded(self, sub, key, facts, root):
             if EscapeAnalysis._key_guarded(self, sub, key, facts, root):
@@ -328,6 +360,9 @@ def run(repo, rep, tier):
             if not isinstance(sub.value, ast.Subscript):
                 return False
             bt = norm(sub.value.value)
+            cur = getattr(self, '_cur_func', None)
+            if cur is not None:
+                facts = list(facts) + checked_by_helpers(cur, sub)
             for t, pol in facts:
                 if isinstance(t, ast.Compare) and len(t.ops) == 1 and \
                         isinstance(t.left, ast.Subscript) and \
